@@ -142,7 +142,11 @@ def check_forcing_never_refuses(ctx, fx, cfg, rule):
 
 
 def _birth_ctor(g, t):
-    return g.get("vis") != "pub" and g["kind"] in ("fn", "assoc_fn") and ("addr::Addr<" in (g.get("output") or "") or "context::Context<" in (g.get("output") or ""))
+    # (a `pub fn` of a type that is itself crate-private — `Channel::into_addr` — is not reachable from outside either)
+    fx_ = FX[0]
+    self_adt = (g.get("impl_self") or "").split("<")[0]
+    hidden = fx_ is not None and self_adt in fx_.adts and fx_.adts[self_adt].get("vis") != "pub" and not g.get("impl_trait_def")
+    return (g.get("vis") != "pub" or hidden) and g["kind"] in ("fn", "assoc_fn") and ("addr::Addr<" in (g.get("output") or "") or "context::Context<" in (g.get("output") or ""))
 
 
 def check_birth(ctx, fx, cfg, RULE="R15.3"):
